@@ -36,16 +36,16 @@ type readerCase struct {
 }
 
 type r2 struct {
-	F1 int     `header:"f1"`
+	F1 int32   `header:"f1"`
 	F2 float64 `header:"f2"`
 }
 type r3 struct {
-	F1 int     `header:"f1"`
+	F1 int32   `header:"f1"`
 	F2 float64 `header:"f2"`
 	F3 bool    `header:"f3"`
 }
 type r4 struct {
-	F1 int       `header:"f1"`
+	F1 int32     `header:"f1"`
 	F2 float64   `header:"f2"`
 	F3 bool      `header:"f3"`
 	F4 time.Time `header:"f4" format:"2006-01-02"`
@@ -55,6 +55,18 @@ var okCell = map[string]string{"f1": "42", "f2": "3.5", "f3": "true", "f4": "202
 
 func cellText(colName string, pos int, n int, hdr bool, kind string, row int) string {
 	if kind == "bad" {
+		// a cell that does not parse as the type of its field: not a number / date / boolean at all, or - every other row -
+		// a well-formed number outside the range of the 32-bit field
+		name := colName
+		if !hdr {
+			names := []string{"f1", "f2", "f3", "f4"}
+			if pos < n {
+				name = names[pos]
+			}
+		}
+		if name == "f1" && row%2 == 1 {
+			return "3000000000"
+		}
 		return "zz"
 	}
 	if hdr {
